@@ -178,7 +178,7 @@ Mismatch_(ev, S) ==
 \* discarded branch is judged at the later committed steps it influences
 PropHolds(c, S) ==
   CASE S.in.disc -> TRUE
-    [] c = "C01" -> Prop_C01(S) [] c = "C02" -> Prop_C02(S) /\ Prop_C02big(S) [] c = "C03" -> Prop_C03(S)
+    [] c = "C01" -> Prop_C01(S) [] c = "C02" -> Prop_C02(S) /\ Prop_C02big(S) [] c = "C03" -> Prop_C03(S) /\ Prop_C03big(S)
     [] c = "C04" -> Prop_C04(S) /\ Prop_C04big(S) [] c = "C05" -> Prop_C05(S) [] c = "C06" -> Prop_C06(S) [] c = "C08" -> Prop_C08(S)
     [] c = "C09" -> Prop_C09(S) [] c = "C10" -> Prop_C10(S) [] c = "C11" -> Prop_C11(S)
     [] c = "C07" -> Prop_C07(S) [] c = "C13" -> Prop_C13(S) [] c = "C19" -> Prop_C19(S)
@@ -189,7 +189,7 @@ PropHolds(c, S) ==
 Ante(S) ==
   {c \in PropIds :
      CASE c = "C01" -> IsRecv(S)
-       [] c = "C03" -> IsRecv(S) /\ (S.fired # {} \/ ~S.ok)
+       [] c = "C03" -> IsRecv(S) /\ (S.fired # {} \/ ~S.ok \/ IsBig(S))
        [] c = "C02" -> IsTransfer(S) \/ (IsBig(S) /\ S.ok)
        [] c = "C12" -> IsTransfer(S)
        [] c = "C04" -> HasFee(S) \/ (IsBig(S) /\ FeeActs(S) # {})
